@@ -42,7 +42,7 @@ func checkC05(c *Ctx) {
 	}
 	for _, p := range []pair{{ModelKind{"low", 2}, ModelKind{"low", 3}}, {ModelKind{"high", 2}, ModelKind{"high", 3}}} {
 		c.runStoreGen(&StoreGen{Kinds: []ModelKind{p.a, p.b}, Keys: []int{0, 2, 4}, Q: 4, Weights: []int{6}, Ops: []string{"Add", "Merge", "Clear", "CopyTo"},
-			Depth: c.pick(4, 6)}, c.pick(3, 3), fmt.Sprintf("deep narrow tree add/merge/clear/copy %s%d x %s%d", p.a.Kind, p.a.N, p.b.Kind, p.b.N))
+			Depth: c.pick(4, 5)}, c.pick(3, 4), fmt.Sprintf("deep narrow tree add/merge/clear/copy %s%d x %s%d", p.a.Kind, p.a.N, p.b.Kind, p.b.N))
 	}
 	simKinds := [][]ModelKind{
 		{{"low", 2}, {"low", 4}, {"exact", 0}}, {{"high", 2}, {"high", 4}, {"exact", 0}}, {{"low", 3}, {"high", 3}, {"low", 1}},
